@@ -3,6 +3,7 @@ package main
 import (
 	"encoding/json"
 	"fmt"
+	"runtime/debug"
 	"strings"
 
 	"github.com/RoaringBitmap/roaring"
@@ -25,10 +26,11 @@ type LruCase struct {
 	Metrics     int      `json:"metrics,omitempty"`      // bit mask of configured counters: 1 hit, 2 miss, 4 get, 8 put; 0 = all
 	Max         uint64   `json:"max"`
 	Ops         []LruOpJ `json:"ops"`
+	MemLimit    int64    `json:"mem_limit,omitempty"` // a Go soft memory limit (GOMEMLIMIT) in force while the cache is built and used
 }
 
 // bitmaps of various in-memory sizes (GetSizeInBytes): empty, tiny array, arrays, a bitmap container, many containers
-var protoBitmaps [nSizeClasses]*roaring.Bitmap
+var protoBitmaps [nSizeClasses + 1]*roaring.Bitmap
 
 func bitmapOfClass(class int) *roaring.Bitmap {
 	if protoBitmaps[class] == nil {
@@ -55,15 +57,21 @@ func buildBitmapOfClass(class int) *roaring.Bitmap {
 		for i := uint32(0); i < 6000; i++ { // bitmap container: 8 KiB
 			bm.Add(i * 2)
 		}
-	default:
+	case 5:
 		for i := uint32(0); i < 12000; i++ {
 			bm.Add(i * 11)
+		}
+	default: // class 6: sixteen bitmap containers, about 128 KiB (used by the many-entries family only)
+		for c := uint32(0); c < 16; c++ {
+			for i := uint32(0); i < 6000; i++ {
+				bm.Add(c<<16 + i*2)
+			}
 		}
 	}
 	return bm
 }
 
-const nSizeClasses = 6
+const nSizeClasses = 6 // classes the random generators draw from; class 6 exists besides
 
 func runLruCase(o *Oracle, c *LruCase, rep *Report) {
 	hit, miss, get, put := &counter{}, &counter{}, &counter{}, &counter{}
@@ -84,6 +92,11 @@ func runLruCase(o *Oracle, c *LruCase, rep *Report) {
 	}
 	if mask&8 != 0 {
 		m.PutCall = put
+	}
+	if c.MemLimit > 0 {
+		// the configured maximum is the caller's decision whatever the process environment says
+		old := debug.SetMemoryLimit(c.MemLimit)
+		defer debug.SetMemoryLimit(old)
 	}
 	var cache *updog.LRUCache
 	if c.LateMetrics {
@@ -271,6 +284,40 @@ func runC07(rep *Report, r *Rng, tier string) {
 		}
 		runLruCase(o, c, rep)
 		rep.Count("random-histories")
+	}
+	// many small entries, then one Put that has to evict more than a thousand of them at once (incl. an entry larger
+	// than the whole capacity), and the same under a Go soft memory limit smaller than four times the capacity
+	{
+		small := bitmapOfClass(1).GetSizeInBytes()
+		for _, n := range []int{1100, 1500} {
+			for _, lim := range []int64{0, 1} {
+				c := &LruCase{Max: uint64(n) * (ovh + small)}
+				if lim == 1 {
+					c.MemLimit = int64(c.Max) * 3
+					if c.MemLimit < 48<<20 {
+						c.MemLimit = 48 << 20 // never starve the harness itself
+						c.Max = uint64(c.MemLimit / 3)
+					}
+				}
+				for k := 0; k < n; k++ {
+					c.Ops = append(c.Ops, LruOpJ{Key: uint64(k), Size: 1})
+				}
+				c.Ops = append(c.Ops, LruOpJ{Get: true, Key: 0}, LruOpJ{Key: uint64(n), Size: 6}, LruOpJ{Get: true, Key: 1}, LruOpJ{Get: true, Key: uint64(n)})
+				if lim == 1 { // fill a good part of the configured maximum with entries that all fit
+					c.Ops = c.Ops[:0]
+					per := ovh + bitmapOfClass(6).GetSizeInBytes()
+					cnt := int(c.Max/per) - 1
+					for k := 0; k < cnt; k++ {
+						c.Ops = append(c.Ops, LruOpJ{Key: uint64(k), Size: 6})
+					}
+					for k := 0; k < cnt; k += 7 {
+						c.Ops = append(c.Ops, LruOpJ{Get: true, Key: uint64(k)})
+					}
+				}
+				runLruCase(o, c, rep)
+				rep.Count("many-entries-histories")
+			}
+		}
 	}
 	rep.OracleCalls = o.n
 }
